@@ -426,9 +426,11 @@ pub trait Prover {
             deep_composition_poly
         };
 
-        // make sure the degree of the DEEP composition polynomial is equal to trace polynomial
-        // degree minus 1.
-        assert_eq!(trace_length - 2, deep_composition_poly.degree());
+        // make sure the degree of the DEEP composition polynomial does not exceed trace polynomial
+        // degree minus 1; the degree is smaller for valid traces whose columns (and constraint
+        // composition columns) interpolate into polynomials of less than maximal degree, e.g.
+        // constant columns
+        assert!(deep_composition_poly.degree() <= trace_length - 2);
 
         // 5 ----- evaluate DEEP composition polynomial over LDE domain ---------------------------
         let deep_evaluations = {
@@ -436,7 +438,7 @@ pub trait Prover {
             let deep_evaluations = deep_composition_poly.evaluate(&domain);
             // we check the following condition in debug mode only because infer_degree is an
             // expensive operation
-            debug_assert_eq!(trace_length - 2, infer_degree(&deep_evaluations, domain.offset()));
+            debug_assert!(infer_degree(&deep_evaluations, domain.offset()) <= trace_length - 2);
 
             drop(span);
             deep_evaluations
